@@ -434,7 +434,16 @@ randombytes_internal_random_stir(void)
         global.initialized = 1;
     }
 #ifdef HAVE_GETPID
-    global.pid = getpid();
+    {
+        const pid_t pid = getpid();
+
+        /* every thread stirs its own stream once; only write the shared field
+         * when the process actually changed (after fork()) to avoid a data race
+         * with threads reading it in randombytes_internal_random_stir_if_needed() */
+        if (global.pid != pid) {
+            global.pid = pid;
+        }
+    }
 #endif
 
 #ifndef _WIN32
